@@ -9,6 +9,7 @@ package main
 import (
 	"bufio"
 	"bytes"
+	"database/sql"
 	"encoding/json"
 	"fmt"
 	"io"
@@ -137,11 +138,12 @@ func judgeReader(res *hx.Result, drv *hx.Driver, e readerEval, shrink bool) bool
 // ---------- part (b) ----------
 
 type restoreJob struct {
-	env  *replicaEnv
-	hist HistSpec
-	plan []*ltx.FileInfo
-	mut  Mut
-	want []byte
+	env   *replicaEnv
+	hist  HistSpec
+	plan  []*ltx.FileInfo
+	mut   Mut
+	want  []byte
+	plant []byte // stale-tmp: bytes planted at <output>.tmp before the restore
 	// abstract inputs for the model
 	failStep string
 	faults   int
@@ -295,6 +297,13 @@ func runRestoreJobs(drv *hx.Driver, jobs []restoreJob, scratch string, par int) 
 			for i := range next {
 				j := jobs[i]
 				q := workerReq{Dir: j.env.dir, Mut: j.mut, OutDir: dir}
+				if j.mut.Kind == "stale-tmp" {
+					q.Plant = filepath.Join(scratch, fmt.Sprintf("plant-%d", slot))
+					os.MkdirAll(scratch, 0o755)
+					if err := os.WriteFile(q.Plant, j.plant, 0o644); err != nil {
+						hx.Fatal(err)
+					}
+				}
 				for _, p := range j.plan {
 					q.Plan = append(q.Plan, planID{Level: p.Level, Min: uint64(p.MinTXID), Max: uint64(p.MaxTXID)})
 				}
@@ -417,6 +426,9 @@ func jobsFor(r *hx.Rand, env *replicaEnv, h HistSpec, scratch string, all bool, 
 	}
 	if h.GapOnly {
 		return jobs, nil
+	}
+	if err := staleTmpJobs(env, h, scratch, want, add); err != nil {
+		return nil, err
 	}
 	add(Mut{Kind: "none"}, nil)
 	add(Mut{Kind: "none", Integrity: 1}, nil)
@@ -678,6 +690,100 @@ func gapJobs(env *replicaEnv, scratch string, add func(Mut, func(*restoreJob)), 
 		}
 	}
 	return nil
+}
+
+// staleTmpJobs: a leftover <output>.tmp (longer than / equal to / shorter than the database about to be
+// restored; a larger earlier image, random bytes, a valid larger SQLite database) plus junk sidecars is on
+// disk when Restore starts (a previous restore was SIGKILLed).  The output must be the reference image
+// BYTE FOR BYTE — same size, no stale tail — for default, TXID-targeted (earlier, smaller state) and
+// timestamp restores, with and without the integrity check.
+func staleTmpJobs(env *replicaEnv, h HistSpec, scratch string, latest []byte, add func(Mut, func(*restoreJob))) error {
+	first, err := pristineRestore(env, filepath.Join(scratch, "pristine"), 1)
+	if err != nil {
+		return fmt.Errorf("reference restore at TXID 1: %w", err)
+	}
+	files, err := allFiles(env.client)
+	if err != nil {
+		return err
+	}
+	ts := int64(0)
+	for _, f := range files {
+		ts = max(ts, f.Created+1)
+	}
+	sq, err := bigSQLite(filepath.Join(scratch, "big"), h.PageSize, len(latest)+8*h.PageSize)
+	if err != nil {
+		return err
+	}
+	type target struct {
+		m    Mut
+		want []byte
+	}
+	targets := []target{{Mut{}, latest}, {Mut{TXID: 1}, first}, {Mut{TS: ts}, latest}}
+	rnd := hx.NewRand(h.Seed ^ 0x5ca1ab1e)
+	for _, tg := range targets {
+		for _, kind := range []string{"image", "random", "sqlite"} {
+			for _, rel := range []string{"longer", "equal", "shorter"} {
+				size := len(tg.want)
+				switch rel {
+				case "longer":
+					size += (1 + rnd.Intn(6)) * h.PageSize
+				case "shorter":
+					size -= min(size-1, (1+rnd.Intn(3))*h.PageSize)
+				}
+				var src []byte
+				switch kind {
+				case "image":
+					src = append(append([]byte(nil), latest...), latest...) // an earlier, larger restored image
+				case "sqlite":
+					src = sq
+				}
+				plant := make([]byte, size)
+				for i := range plant {
+					if i < len(src) {
+						plant[i] = src[i]
+					} else {
+						plant[i] = byte(rnd.Uint64())
+					}
+				}
+				for _, integ := range []int{0, 1} {
+					m := tg.m
+					m.Kind, m.TmpKind, m.TmpRel, m.Integrity = "stale-tmp", kind, rel, integ
+					w, p := tg.want, plant
+					add(m, func(j *restoreJob) { j.want, j.plant = w, p })
+				}
+			}
+		}
+	}
+	return nil
+}
+
+// bigSQLite builds a valid SQLite database of at least minSize bytes with the given page size.
+func bigSQLite(dir string, pageSize, minSize int) ([]byte, error) {
+	os.RemoveAll(dir)
+	if err := os.MkdirAll(dir, 0o755); err != nil {
+		return nil, err
+	}
+	p := filepath.Join(dir, "big.db")
+	d, err := sql.Open("sqlite", p)
+	if err != nil {
+		return nil, err
+	}
+	defer d.Close()
+	for _, q := range []string{fmt.Sprintf("PRAGMA page_size=%d", pageSize), "CREATE TABLE big (id INTEGER PRIMARY KEY, v BLOB)"} {
+		if _, err := d.Exec(q); err != nil {
+			return nil, err
+		}
+	}
+	for n := 0; n < 200; n++ {
+		if _, err := d.Exec("INSERT INTO big (v) VALUES (randomblob(?))", pageSize); err != nil {
+			return nil, err
+		}
+		if fi, err := os.Stat(p); err == nil && fi.Size() >= int64(minSize) {
+			break
+		}
+	}
+	d.Close()
+	return os.ReadFile(p)
 }
 
 func histSpecs(r *hx.Rand, tier string) []HistSpec {
